@@ -191,12 +191,15 @@ CMAC, SMAC = b"\x02\x00\x00\x00\x10\x01", b"\x02\x00\x00\x00\x10\x02"
 class QConn:
     def __init__(self, rng, suite=0x1301, offer=None, dcid0_len=8, scid_c_len=8, scid_s_len=8, cport=50000, sport=443,
                  cip="10.0.0.1", sip="10.0.0.2", t0=1_700_000_100_000_000, pn_start=None, early=False,
-                 cmac=CMAC, smac=SMAC):
+                 cmac=CMAC, smac=SMAC, prefix_cid=False):
         self.rng, self.suite = rng, suite
         self.offer = offer or [0x1301, 0x1302, 0x1303, 0x1304]
         self.dcid0 = rng.randbytes(max(8, dcid0_len))         # RFC 9000 §7.2: at least 8 bytes
         self.scid_c = rng.randbytes(scid_c_len)
         self.scid_s = rng.randbytes(scid_s_len)
+        if prefix_cid:
+            # RFC 9000 puts no constraint on CID values: the server's CID may extend the client's original DCID
+            self.scid_s = self.dcid0 + rng.randbytes(4)
         self.cport, self.sport, self.cip, self.sip = cport, sport, wire.ipb(cip), wire.ipb(sip)
         self.cmac, self.smac = cmac, smac
         self.t = t0
@@ -438,6 +441,7 @@ def random_connection(rng, idx=0, v6=None, suite=None, features=None):
     f.setdefault("new_cid", rng.random() < 0.3)
     f.setdefault("pn_big", rng.random() < 0.3)
     f.setdefault("v6", rng.random() < 0.3 if v6 is None else v6)
+    f.setdefault("prefix_cid", rng.random() < 0.08 and not f["retry"])
     offer = list(SUITES)
     if f["offer_order"] == "suite-first":
         offer = [f["suite"]] + [c for c in offer if c != f["suite"]]
@@ -452,7 +456,7 @@ def random_connection(rng, idx=0, v6=None, suite=None, features=None):
     ep = f.get("endpoints") or {}
     cip, sip = ep.get("cip", cip), ep.get("sip", sip)
     c = QConn(rng, suite=f["suite"], offer=offer, scid_c_len=f["scid_c_len"], scid_s_len=f["scid_s_len"],
-              cport=ep.get("cport", 30000 + rng.randrange(30000)), sport=443, cip=cip, sip=sip, early=f["zero_rtt"],
+              cport=ep.get("cport", 30000 + rng.randrange(30000)), sport=443, cip=cip, sip=sip, early=f["zero_rtt"], prefix_cid=f["prefix_cid"],
               t0=1_700_000_100_000_000 + idx * 1000 + rng.randrange(10 ** 6), pn_start=pn_start,
               cmac=bytes([2, 0, 2, rng.randrange(256), rng.randrange(256), idx & 255]),
               smac=bytes([2, 0, 3, rng.randrange(256), rng.randrange(256), idx & 255]))
